@@ -133,6 +133,16 @@ def run_direct(shard, mon, S):
             mon.distinct((m, a))
             if got != (want == R.ACCEPT):
                 mon.viol(f"method_{m}:{'false_accept' if got else 'false_reject'}", w, want, o.brief())
+        # judged again after all the others (and in reverse order): same verdicts as the first time
+        firsts = {}
+        for a in pool[:120]:
+            firsts[a] = lib_direct(algos, m, a)[0]
+        for a in list(reversed(pool[:120])) + pool[:40]:
+            got, o = lib_direct(algos, m, a)
+            mon.ev()
+            want = G.verdict(m, a)
+            if got != firsts[a] or (want != R.DONT_CARE and got is not None and got != (want == R.ACCEPT)):
+                mon.viol(f"method_{m}:verdict_changes_when_judged_again", {"method": m, "account": a}, firsts[a], o.brief())
         mon.tally("methods_direct")
         mon.tally("ref_accept", seen[R.ACCEPT])
         mon.tally("ref_reject", seen[R.REJECT])
@@ -212,8 +222,10 @@ def run_api(shard, mon, S):
                 judge.repeated_validation_consistent(mon, text, o, w)
                 for form, arg in (("str", code + a), ("BBAN", S.BBAN("DE", code + a))):
                     ofb = observe(S.IBAN.from_bban, "DE", arg, validate_bban=True)
-                    if ofb.ok != o.ok:
-                        mon.viol(f"from_bban_with_flag_disagrees:{form}", w, o.brief(), ofb.brief())
+                    ofp = observe(S.IBAN.from_bban, "DE", arg, False, True)
+                    if ofb.ok != o.ok or ofp.ok != o.ok:
+                        mon.viol(f"from_bban_with_flag_disagrees:{form}", w, o.brief(), [ofb.brief(), ofp.brief()])
+                judge.call_forms_agree(mon, "iban", text, True, o, w)
             if want == R.DONT_CARE:
                 mon.tally("api_dont_care")
                 continue
@@ -223,6 +235,13 @@ def run_api(shard, mon, S):
                 kind = "false_accept" if o.ok else "false_reject"
                 tag = f"api:method_{m}:{kind}" if implemented else "api:unimplemented_method_rejected"
                 mon.viol(tag, w, want, o.brief())
+        # the bank's first account once more, after the others
+        if accs and implemented:
+            a0 = accs[0]
+            o_again = observe(S.IBAN, R.make_iban("DE", code + a0), validate_bban=True)
+            want0 = G.verdict(m, a0)
+            if want0 != R.DONT_CARE and o_again.ok != (want0 == R.ACCEPT):
+                mon.viol(f"api:method_{m}:verdict_changes_when_judged_again", {"bank_code": code, "method": m, "account": a0}, want0, o_again.brief())
         mon.tally("api_methods_" + ("impl" if implemented else "unimpl"))
         if shard.get("synthetic"):
             mon.tally("synthetic_banks")
